@@ -76,6 +76,11 @@ struct C01Vis {
 			for(L i : {L(0), L(1), L(2), L(5)}) { auto&& bi = b[i];
 				if(tuple_to_vec(bi.sizes()) != m.size) violation("C01:broadcasted:sizes", "broadcasted()[i] sizes differ from source");
 				for(L k = 0; k < N; ++k) { m.unlin(k, ix); if(std::addressof(brk(bi, ix)) != base + m.off[std::size_t(k)]) violation("C01:broadcasted:element", "broadcasted()[" + std::to_string(i) + "] designates another element at " + join(ix)); } }
+			// the broadcast dimension moved inwards (README: outer products through ~(a.broadcasted())): rotated() puts it last, so that for D == 1 the innermost 1-D view has stride 0
+			{ op("broadcasted().rotated()"); auto&& br = v.broadcasted().rotated(); for(L k = 0; k < N; ++k) { m.unlin(k, ix); for(L i : {L(0), L(3)}) { std::vector<L> jx = ix; jx.push_back(i);
+				if(std::addressof(brk(br, jx)) != base + m.off[std::size_t(k)]) { violation("C01:broadcasted:rotated:element", "broadcasted().rotated() designates another element at " + join(jx)); break; } } } count("op:broadcasted().rotated()"); }
+			if constexpr(D >= 1) { op("~broadcasted()"); auto&& bt = v.broadcasted().transposed(); for(L k = 0; k < N; ++k) { m.unlin(k, ix); for(L i : {L(0), L(4)}) { std::vector<L> jx = ix; jx.insert(jx.begin() + 1, i);
+				if(std::addressof(brk(bt, jx)) != base + m.off[std::size_t(k)]) { violation("C01:broadcasted:transposed:element", "(~broadcasted()) designates another element at " + join(jx)); break; } } } count("op:~broadcasted()"); }
 			count("op:broadcasted");
 		}
 		nontrivial(effective_ops >= 1 && elems_compared >= 1);
